@@ -326,7 +326,6 @@ package sipsp
 
 //@ func ParseFLine(buf, offs, pl) (n, err)
 //@   law[C03,C02] EXT(buf)
-//@   law[C02] RES(buf, offs)
 //@   requires bufOK(buf) && 0 <= offs && offs <= len(buf) && pl != nil && flOK(pl, offs)
 //@   modifies *pl
 //@   cases pl.state 0 7
